@@ -58,6 +58,27 @@ class Session(object):
             rng.shuffle(assign)
             self.blocks = [[i for i, a in enumerate(assign) if a == k] for k in range(d)]
             self.member = members.make_member(cls, params, rng, partition_blocks=self.blocks)
+            # every block handed out (to the method or to the class itself) is bound when it is handed out, through the
+            # public call only: block k of a point is the point restricted to the coordinates of block k
+            orig_get_block = self.partition.get_block
+            masks = []
+            for b_ in self.blocks:
+                m_ = np.zeros(sum(len(x_) for x_ in self.blocks))
+                m_[np.array(b_, dtype=int)] = 1.0
+                masks.append(m_)
+
+            def get_block(point, block_number, _orig=orig_get_block):
+                out = _orig(point, block_number)
+                try:
+                    pv_ = self.pvalue(point)
+                except Exception:
+                    return out
+                for kk in range(d - 1):
+                    blk = _orig(point, kk)
+                    if blk.get_is_leaf() and id(blk) not in self.pvals:
+                        self.bind_point(blk, pv_ * masks[kk])
+                return out
+            self.partition.get_block = get_block
         else:
             mp = dict(member_params if member_params is not None else params)
             self.with_v = cls == "NonexpansiveOperator" and rng.random() < 0.3
@@ -106,6 +127,19 @@ class Session(object):
                     self.unrepresentable = getattr(self, "unrepresentable", []) + [
                         "not declared differentiable, yet the subgradient answered at an already evaluated point is tied to %s; the real run picked the admissible %s"
                         % (np.round(gv, 6).tolist(), np.round(greal, 6).tolist())]
+            except KeyError:
+                pass
+        elif not getattr(self.member, "multivalued", False):
+            # a differentiable function answered with objects that are already tied to values (a sample it holds): they must
+            # be THE gradient and value of the member at the point asked, i.e. the point asked must be the sampled one
+            try:
+                gv = self.pvalue(g)
+                self.n_reuse = getattr(self, "n_reuse", 0) + 1
+                sz = float(np.max(np.abs(greal), initial=0.0)) + float(np.max(np.abs(gv), initial=0.0))
+                if float(np.max(np.abs(gv - greal), initial=0.0)) > 1e-4 * (1.0 + sz):      # harness minimisers / resolvents are approximate
+                    self.unrepresentable = getattr(self, "unrepresentable", []) + [
+                        "the gradient answered at the point %s is the one of another sample: it is worth %s, the member's gradient there is %s"
+                        % (np.round(xv, 6).tolist(), np.round(gv, 6).tolist(), np.round(greal, 6).tolist())]
             except KeyError:
                 pass
         if v.get_is_leaf() and id(v) not in self.evals:
@@ -171,11 +205,40 @@ class Session(object):
             elif r < 0.6 and not m.restricted_domain:
                 # evaluation at a combination of existing points and gradients
                 a, b = rng.choice(pts), rng.choice(pts)
-                x = a - rng.choice([0.5, 1.0, 0.1]) * (self.f.gradient(b) if rng.random() < 0.6 else b)
+                steps = [0.5, 1.0, 0.1]
+                Lp = getattr(self.f, "L", None)
+                if isinstance(Lp, (int, float)) and 0 < Lp < float("inf"):
+                    steps += [1.0 / Lp, 1.0 / Lp]           # the textbook step (1e-9 on a badly scaled class)
+                if rng.random() < 0.12:
+                    # a tiny multiple of a point that is very far away (never evaluated itself): x differs from a by O(1)
+                    # although its coefficients differ from those of a by 1e-9 only
+                    far = self.new_point(1e9 * rng.choice([1.0, 10.0]) * np.array([rng.gauss(0, 1) for _ in range(self.dim)]))
+                    x = a - 1e-9 * far
+                    pts.append(x)
+                    self.oracle(x)
+                    kinds.append("eval:tiny_multiple_of_far_point")
+                    continue
+                x = a - rng.choice(steps) * (self.f.gradient(b) if rng.random() < 0.6 else b)
                 self._bind_new()
                 pts.append(x)
                 self.oracle(x)
                 kinds.append("eval:combination")
+            elif r < 0.66 and self.cls == "BlockSmoothConvexFunction":
+                # a coordinate-block step from an existing point, written "project then scale" or "scale then project"
+                b = rng.choice(pts)
+                g = self.f.gradient(b)
+                self._bind_new()
+                k = rng.randrange(len(self.blocks))
+                Lk = float(self.f.L[k])
+                gam = rng.choice([1.0 / Lk, 1.0 / Lk, 0.5, 2.0])
+                if rng.random() < 0.5:
+                    x = b - gam * self.partition.get_block(g, k)
+                    kinds.append("block_step:project_then_scale")
+                else:
+                    x = b - self.partition.get_block(gam * g, k)
+                    kinds.append("block_step:scale_then_project")
+                pts.append(x)
+                self.oracle(x)
             elif r < 0.66 and m.kind == "function" and not m.restricted_domain and self.cls != "BlockSmoothConvexFunction":
                 # the sample arrives through a sum  F = f_aux + f  evaluated as a whole (f receives what is left of F's sample
                 # once f_aux has answered): it is still an ordinary sample of f
@@ -262,20 +325,6 @@ class Session(object):
                         raise RuntimeError("member without stationary point for a class that needs one")
                     self.bind_point(xs, st)
                     self.evals[id(fs)] = m.value(st)
-        if self.cls == "BlockSmoothConvexFunction":
-            idxs = [np.array(b, dtype=int) for b in self.blocks]
-            # bind block leaves in creation order (a block of a point that itself involves earlier blocks)
-            owner = {}
-            for x, blocks in self.partition.blocks_dict.items():
-                for k, blk in enumerate(blocks[:-1]):
-                    owner[id(blk)] = (x, k)
-            for leaf in Point.list_of_leaf_points:
-                if id(leaf) in owner and id(leaf) not in self.pvals:
-                    x, k = owner[id(leaf)]
-                    xv = self.pvalue(x)
-                    mask = np.zeros(self.dim)
-                    mask[idxs[k]] = 1.0
-                    self.bind_point(leaf, xv * mask)
 
     def evaluate(self):
         """Yield (kind, name, violation, magnitude) for every generated constraint / LMI."""
@@ -486,6 +535,7 @@ def run_shard(spec):
                                      "%d samples, events %s" % (cls, fam, regime(params), k, name, v, mag, len(s.f.list_of_points), kinds),
                              "params": {a: (b if b != float("inf") else "inf") for a, b in params.items()}, "member": fam, "events": kinds})
         counters["requeries_of_nondifferentiable"] = counters.get("requeries_of_nondifferentiable", 0) + getattr(s, "n_requery", 0)
+        counters["reused_samples_compared_with_member"] = counters.get("reused_samples_compared_with_member", 0) + getattr(s, "n_reuse", 0)
         if getattr(s, "unrepresentable", None):
             key = "real_sample_not_representable:%s" % cls
             if len(viol) < 12 and not any(x["key"] == key for x in viol):
